@@ -12,12 +12,15 @@ CLAIMED = {
          "numeric cut-off (bincode layout incl. both Hex encodings with padding, UTF-8 chars, member stacks, counters). "
          "Equal states have equal futures (functional model). Tie: the bytes written by save() equal encode byte for byte; "
          "load(save(g)) snapshot equals g modulo the allocator; identical answers under the same continuation; next_id on "
-         "the reloaded graph = lowest absent id.",
+         "the reloaded graph = lowest absent id. Corollaries (SerialMore.v): the image ignores the allocator, what load() "
+         "returns is saved to the same bytes again, any number of save+load generations is stable, and two graphs share an "
+         "image iff they differ in the allocator only; a third of the histories run two further generations.",
          "Coq proof (parser-combinator round trip) + checked model/implementation correspondence", "section 8, C08"),
  "C09": ("Coq theorems (P_C09.v): for every well-formed state and EVERY k < |encode g| the decoder returns end-of-input (an "
          "Err: not a graph, not a panic, not a fuel artefact) on the first k bytes; proved compositionally (extension "
          "stability of every parser, fuel adequacy of the counted repetitions), no bound on the image size. Tie: every "
-         "prefix of sampled images is loaded by the real load(); bit-flip stream compared with the model's decoder.",
+         "prefix of sampled images is loaded by the real load(); bit-flip stream compared with the model's decoder. "
+         "Corollary: the set of images is prefix-free (a cut file is not the complete image of another graph).",
          "Coq proof (extension stability / prefix-EOF of parser combinators) + checked model/implementation correspondence", "section 8, C09"),
  "C11": ("Coq theorems (P_C11.v): for trees embedded in invariant states, within a sufficient capacity condition (fits), merge "
          "returns Ok and keeps the invariant; every labelled path of the right tree exists from `left` and ends on the same "
@@ -41,7 +44,8 @@ CLAIMED = {
          "panic, no fuel exhaustion: termination on cycles), the result's present vertices are exactly the reachable ones, "
          "its edges exactly the source edges between kept vertices in source order, no data, invariant kept; for graphs "
          "reached through the API within the limits the closedness and self-loop hypotheses hold automatically. Tie + "
-         "oracle: random cyclic digraphs, rejected-edge sets, reachability recomputed from the source snapshot.",
+         "oracle: random cyclic digraphs, rejected-edge sets, reachability recomputed from the source snapshot; a slice of "
+         "a slice is the slice (SliceTwice.v; half of the plain slices are sliced again).",
          "Coq proof (work-list closure = reachability for any drain order; rebuild loop invariant) + checked model/implementation correspondence", "section 8, C13"),
  "C14": ("41 Coq theorems (P_C14.v): for every well-formed program and every legal formatting (white-space runs, comments in "
          "every gap, nu prefixes, per-digit hex case, separators, optional final semicolon) deploy(render f prog) equals the "
